@@ -175,10 +175,15 @@ func recordingFinalName(filename string) string {
 }
 
 func deleteTempFiles(directory string) error {
-	matches, _ := filepath.Glob(filepath.Join(directory, "*."+cptvTempExt))
-	for _, filename := range matches {
-		if err := os.Remove(filename); err != nil {
-			return err
+	// A recording in progress consists of <name>.cptv.temp and the CPTV
+	// writer's scratch file <name>.cptv.temp.tmp; constant recordings are
+	// written to a sub-directory of the output directory.
+	for _, dir := range []string{directory, path.Join(directory, "constant-recordings")} {
+		matches, _ := filepath.Glob(filepath.Join(dir, "*."+cptvTempExt+"*"))
+		for _, filename := range matches {
+			if err := os.Remove(filename); err != nil {
+				return err
+			}
 		}
 	}
 	return nil
